@@ -418,7 +418,7 @@ func TestRaw(t *testing.T) {
 	r := vf.Start(t, prop, "raw")
 	rapid.Check(t, func(t *rapid.T) {
 		pkgA := fmt.Sprintf("vt%d.v1", rapid.IntRange(0, 9).Draw(t, "pkgn"))
-		res := pgen.Draw(t, pgen.Supported, pkgA)
+		res := pgen.Draw(t, pgen.Annotated, pkgA)
 		pbs := []*descriptorpb.FileDescriptorProto{res.File}
 		c := &RawCase{Packages: []string{pkgA}}
 		cross := rapid.IntRange(0, 2).Draw(t, "cross")
